@@ -1637,6 +1637,7 @@ where
     /// assert!(map.pin().is_empty());
     /// ```
     pub fn clear(&self, guard: &Guard<'_>) {
+        self.check_guard(guard);
         // Negative number of deletions
         let mut delta = 0;
         let mut idx = 0usize;
@@ -1842,6 +1843,7 @@ where
         value: V,
         guard: &'g Guard<'_>,
     ) -> Result<&'g V, TryInsertError<'g, V>> {
+        self.check_guard(guard);
         match self.put(key, value, true, guard) {
             PutResult::Exists {
                 current,
